@@ -36,18 +36,25 @@ def configs(rnd, tier):
     mf = {k: rnd.uniform(0.1, 0.5) for k in ampkit.FINALS}; M0 = sum(mf.values()) + rnd.uniform(1.0, 2.0)
     res = {p: {"pair": p, "J": J, "P": (1 if J % 2 == 0 else -1), "mass": rnd.uniform(0.8, 1.4), "width": rnd.uniform(0.05, 0.3)}
            for p, J in zip(ampkit.PAIRS, (1, 2, 0))}
-    out.append(("spin0", ampkit.three_body_config(M0, mf, res), M0, mf))
+    out.append(("spin0", ampkit.three_body_config(M0, mf, res), M0, mf, None))
     # (2) spin-1/2 parent and baryon, weak decay
     mf = {"B": 0.938, "C": 0.494, "D": 0.139}; M0 = 2.286
     res = {"R_BC": {"pair": "R_BC", "J": 1.5, "P": -1, "mass": 1.52, "width": 0.05}, "R_BD": {"pair": "R_BD", "J": 1.5, "P": 1, "mass": 1.232, "width": 0.117},
            "R_CD": {"pair": "R_CD", "J": 1, "P": -1, "mass": 0.892, "width": 0.05}}
     out.append(("half", ampkit.three_body_config(M0, mf, res, top=(0.5, 1), fin={"B": (0.5, 1), "C": (0, -1), "D": (0, -1)},
-                                                decay_opts={k: {"p_break": True} for k in res}), M0, mf))
+                                                decay_opts={k: {"p_break": True} for k in res}), M0, mf, None))
     # (3) vector parent, vector final, two resonances on the same pair
     mf = {"B": 0.78, "C": 0.14, "D": 0.14}; M0 = 3.1
     res = {"R_CD": {"pair": "R_CD", "J": 0, "P": 1, "mass": 0.98, "width": 0.07}, "R_CD2": {"pair": "R_CD", "J": 2, "P": 1, "mass": 1.27, "width": 0.18},
            "R_BC": {"pair": "R_BC", "J": 1, "P": 1, "mass": 1.23, "width": 0.14}}
-    out.append(("vector", ampkit.three_body_config(M0, mf, res, top=(1, -1), fin={"B": (1, -1), "C": (0, -1), "D": (0, -1)}), M0, mf))
+    out.append(("vector", ampkit.three_body_config(M0, mf, res, top=(1, -1), fin={"B": (1, -1), "C": (0, -1), "D": (0, -1)}), M0, mf, None))
+    # (4) four-body cascades in which one resonance appears in several chains (Rx in two, Sx in two)
+    mf = {"B": 0.14, "C": 0.14, "D": 0.49, "E": 0.49}; M0 = 3.1
+    spins = {"A": (1, -1), "B": (0, -1), "C": (0, -1), "D": (0, -1), "E": (0, -1)}
+    chains = [{"kind": "31", "R": ("Rx", 1, 1, 1.9, 0.2), "S": ("Sx", 1, -1, 0.78, 0.15, ("B", "C")), "third": "D", "fourth": "E"},
+              {"kind": "31", "R": ("Rx", 1, 1, 1.9, 0.2), "S": ("Sy", 0, 1, 0.9, 0.2, ("C", "D")), "third": "B", "fourth": "E"},
+              {"kind": "22", "R1": ("Sx", 1, -1, 0.78, 0.15, ("B", "C")), "R2": ("R2", 1, -1, 1.02, 0.05, ("D", "E"))}]
+    out.append(("cascade", ampkit.four_body_config(M0, mf, spins, chains), M0, mf, ((("B", "C"), "D"), "E")))
     if tier == "thorough":
         for k in range(6):
             mf = {x: rnd.uniform(0.1, 0.5) for x in ampkit.FINALS}; M0 = sum(mf.values()) + rnd.uniform(1.0, 2.0)
@@ -57,18 +64,18 @@ def configs(rnd, tier):
                 res["X%d" % n] = {"pair": p, "J": J, "P": (1 if J % 2 == 0 else -1), "mass": rnd.uniform(0.8, 1.6), "width": rnd.uniform(0.05, 0.3)}
             Jt = rnd.choice([0, 1]); Jb = rnd.choice([0, 1])
             out.append(("rand%d" % k, ampkit.three_body_config(M0, mf, res, top=(Jt, -1), fin={"B": (Jb, -1), "C": (0, -1), "D": (0, -1)},
-                                                               decay_opts={x: {"p_break": True} for x in res}), M0, mf))
+                                                               decay_opts={x: {"p_break": True} for x in res}), M0, mf, None))
     return out
 
 
-def run_config(ctx, rnd, tag, cfg, M0, mf, cases, nev):
+def run_config(ctx, rnd, tag, cfg, M0, mf, cases, nev, tree=None):
     from tf_pwa.config_loader import ConfigLoader
     from tf_pwa.applications import fit_fractions
     from tf_pwa.fitfractions import cal_fitfractions_no_grad
     config = ConfigLoader(cfg)
     amp = config.get_amplitude()
     pars = ampkit.random_params(amp, rnd)
-    p4 = ampkit.gen_events(M0, mf, nev, rnd.randrange(10 ** 6))
+    p4 = ampkit.gen_events(M0, mf, nev, rnd.randrange(10 ** 6)) if tree is None else ampkit.gen_tree_events(tree, mf, M0, nev, rnd.randrange(10 ** 6))
     data = config.data.cal_angle(p4)
     per, full = ampkit.chain_amps(amp, data)
     nch = len(per)
@@ -130,23 +137,40 @@ def run_config(ctx, rnd, tag, cfg, M0, mf, cases, nev):
         ctx.count("ff_batch=%s" % ("1" if b == 1 else "N-1" if b == nev - 1 else "N" if b == nev else "N+3"))
     ffn = cal_fitfractions_no_grad(amp, data, batch=max(1, nev - 1))
     ctx.evaluations += len(batches) + 1
-    for b in batches:
+    # accumulator path (method="new", what ConfigLoader.cal_fitfractions uses with lazy_call) with >= 2 batches
+    extra = {}
+    for b in ([1, max(1, nev - 1)] if nev > 1 else [1]):
+        r = fit_fractions(amp, data, batch=b, method="new", res=list(amp.res))
+        extra[("new", b)] = {kk: float(v) for kk, v in r.get_frac_grad(sum_diag=False)[0].items()}
+        ctx.count("ff_method_new_batches=%d" % math.ceil(nev / b))
+    # the same fractions through a graph-compiled model without the id cache (amp(data) path with sub-selections)
+    import copy
+    c2 = copy.deepcopy(cfg); c2["data"].update({"use_tf_function": True, "no_id_cached": True})
+    config2 = ConfigLoader(c2); amp2 = config2.get_amplitude(); amp2.set_params(pars)
+    data2 = config2.data.cal_angle(p4); data2["weight"] = w
+    extra[("tf_function+no_id_cached", nev)] = {kk: float(v) for kk, v in fit_fractions(amp2, data2, batch=nev)[0].items()}
+    for (how, b), vals in extra.items():
+        ffs[(how, b)] = vals
+    for b in list(ffs):
         for key, v in ffs[b].items():
             if isinstance(key, tuple):
                 a, c = key
-                model = "wnorm %s (vadd %s %s) / wnorm %s %s - wnorm %s %s / wnorm %s %s - wnorm %s %s / wnorm %s %s" % (
-                    wl, clist(res_amp[a]), clist(res_amp[c]), wl, clist(allv), wl, clist(res_amp[a]), wl, clist(allv), wl, clist(res_amp[c]), wl, clist(allv))
+                # the pair selection activates the UNION of the chains containing either resonance (a chain shared by both counts once)
+                pair = sum(pc for pc, cr in zip(per, chain_res) if (a in cr or c in cr))
+                model = "wnorm %s %s / wnorm %s %s - wnorm %s %s / wnorm %s %s - wnorm %s %s / wnorm %s %s" % (
+                    wl, clist(pair), wl, clist(allv), wl, clist(res_amp[a]), wl, clist(allv), wl, clist(res_amp[c]), wl, clist(allv))
                 kid = "%s_x_%s" % key
             else:
                 model = "wnorm %s %s / wnorm %s %s" % (wl, clist(res_amp[key]), wl, clist(allv))
                 kid = str(key)
-            cases.append(("F_%s_b%d_%s" % (tag, b, kid), real_stmt(model, v, rtol=0, atol=1e-10), "rcompute; rclose",
-                          dict(meta0, layer="fit_fraction", batch=b, key=str(key), impl=v, weights=w.tolist())))
+            bid = ("b%d" % b) if isinstance(b, int) else ("%s_b%d" % (b[0].replace("+", "_"), b[1]))
+            cases.append(("F_%s_%s_%s" % (tag, bid, kid), real_stmt(model, v, rtol=0, atol=1e-10), "rcompute; rclose",
+                          dict(meta0, layer="fit_fraction", batch=str(b), key=str(key), impl=v, weights=w.tolist())))
             ctx.distinct.add((tag, "F", b, kid))
         if one_res_per_chain:
             tot = sum(ffs[b].values())
-            cases.append(("R_%s_b%d" % (tag, b), "(Rabs (%s - 1) <= %s)" % (" + ".join(Rq(v) for v in ffs[b].values()), Rq(1e-9)),
-                          "interval with (i_prec 90)", dict(meta0, layer="sum_rule", batch=b, total=tot, fractions={str(k): v for k, v in ffs[b].items()})))
+            cases.append(("R_%s_%s" % (tag, str(b).replace(" ", "").replace("'", "").replace("(", "").replace(")", "").replace(",", "_").replace("+", "_")), "(Rabs (%s - 1) <= %s)" % (" + ".join(Rq(v) for v in ffs[b].values()), Rq(1e-9)),
+                          "interval with (i_prec 90)", dict(meta0, layer="sum_rule", batch=str(b), total=tot, fractions={str(k): v for k, v in ffs[b].items()})))
     # no-grad variant agrees with the graded one (same definition)
     for key, v in ffn.items():
         ks = key if isinstance(key, str) else str(key)
@@ -198,8 +222,8 @@ def run(ctx):
                 "{1,N-1,N,N+3} with mixed-sign weights; distinct = distinct (config,layer,item)")
     common.theorem_stage(ctx)
     cases = []
-    for tag, cfg, M0, mf in configs(rnd, ctx.tier):
-        meta = run_config(ctx, rnd, tag, cfg, M0, mf, cases, 3 if ctx.tier == "quick" else 6)
+    for tag, cfg, M0, mf, tree in configs(rnd, ctx.tier):
+        meta = run_config(ctx, rnd, tag, cfg, M0, mf, cases, 3 if ctx.tier == "quick" else 6, tree=tree)
         ctx.sample({"config_tag": tag, "decay": cfg["decay"], "particle": cfg["particle"]}, cap=3)
     for c in cases[:: max(1, len(cases) // 3)]:
         ctx.sample({"case": c[0], "goal": c[1][:400]})
